@@ -434,7 +434,7 @@ def shards(tier, seed):
     return [None]  # one shard; the level-synchronous BFS runs its own fork pool
 
 
-SHARD_TIMEOUT = dict(quick=3600, thorough=6 * 3600)
+SHARD_TIMEOUT = dict(quick=4 * 3600, thorough=12 * 3600)  # watchdog only; the box may be heavily overloaded
 WARM = dict(
     plain=[("query", "Plain"), ("get", "Plain", 3), ("add_known", "z", "auto"), ("set", "b1", "name", "w"), ("flush",), ("merge", "Plain", (("id", 1), ("name", "m"))), ("refresh", "b1"), ("delete_live", "b2"), ("commit",), ("get", "Plain", 1)],
     poly=[("query", "Person"), ("get", "Engineer", 1), ("add_known", "e", "auto"), ("flush",), ("refresh", "b1"), ("delete_live", "b2"), ("commit",), ("get", "Manager", 2)],
